@@ -16,7 +16,10 @@ def sh(cmd, **kw):
 
 def one(src):
     prop = src.split("/")[-2]
-    sid = f"{prop}{src.split('/')[-1]}"
+    letter = src.split("/")[-1]
+    if "/out2/" in src:          # second wave of independent seeds
+        letter = {"a": "c", "b": "d"}[letter]
+    sid = f"{prop}{letter}"
     dst = os.path.join(VERIF, "seeded", sid)
     patch = os.path.join(dst if os.path.exists(os.path.join(dst, "patch.diff")) else src, "patch.diff")
     wt = f"/tmp/sw_{sid}"
@@ -64,7 +67,7 @@ def one(src):
 
 
 if __name__ == "__main__":
-    srcs = sorted(glob.glob("/tmp/seed/out/C*/[ab]"))
+    srcs = sorted(glob.glob("/tmp/seed/out/C*/[ab]")) + sorted(glob.glob("/tmp/seed/out2/C*/[ab]"))
     if len(sys.argv) > 1:
         srcs = [s for s in srcs if any(a in s for a in sys.argv[1:])]
     with ThreadPoolExecutor(max_workers=3) as ex:
